@@ -189,6 +189,207 @@ def build_ops(dadi):
         return dadi.Spectrum.from_phi(phi, ns, tuple([xx] * d))
     return ops
 
+# ---------------------------------------------------------------- memo tables: one input varied at a time
+# For every memo table of the library a family of calls whose cached computation has the inputs listed in MEMO_INPUTS.
+# Token  m:<table>:<k>:<v>  = the call of family <table> with base inputs drawn from (seed, table, k) and, if v = 1, input number k
+# replaced by a different value (everything else — including, for the model-spectrum cache, the model FUNCTION OBJECT, which is
+# created once per (process, table, k) — identical).  A history  [m:t:k:0, m:t:k:1, m:t:k:0, m:t:k:1]  therefore makes two
+# otherwise identical calls that differ in exactly one input of the cached computation; each result is compared with the same
+# token evaluated alone in a fresh interpreter.
+MEMO_INPUTS = {
+    'multinomln': ['N[0]', 'N[1]', 'N[2]', 'len(N)', 'type(N)'],
+    'BetaBinomln': ['i', 'n', 'a', 'b'],
+    'cached_part': ['x', 'n', 'minval', 'maxval'],
+    'cached_part_precalc': ['x', 'n', 'minval', 'maxval'],
+    'BetaBinomConvolution': ['i', 'n', 'alpha', 'beta', 'ploidy'],
+    '_cached_projection': ['proj_to', 'proj_from', 'hits'],
+    'project': ['proj_to', 'proj_from', 'values'],
+    'cached_dbeta': ['nx', 'xx[j]', 'xx-spacing', 'len(xx)'],
+    'from_phi_2d': ['ns[0]', 'ns[1]', 'xx-spacing', 'xx[j]', 'phi'],
+    'from_phi_inbreeding': ['ns', 'F', 'ploidy', 'xx-spacing'],
+}
+_UNC = ['FIM_uncert', 'FIM_uncert_log', 'GIM_uncert', 'GIM_uncert_log', 'get_godambe', 'get_hessian', 'LRT_adjust', 'Wald_stat', 'score_stat']
+_UNC_INPUTS = ['func_ex', 'p0[j]', 'ns', 'grid_pts[j]', 'grid_pts-all', 'len(grid_pts)', 'eps', 'data']
+for _u in _UNC:
+    for _m in ('multinom=False', 'multinom=True'):
+        if _u in ('get_godambe', 'get_hessian') and _m == 'multinom=True': continue
+        MEMO_INPUTS['%s:%s' % (_u, _m)] = list(_UNC_INPUTS)
+
+def _mrng(seed, table, k):
+    import numpy as np, zlib
+    return np.random.default_rng([seed, zlib.crc32(table.encode()), k])
+
+def build_memo_ops(dadi):
+    import numpy as np
+    N = dadi.Numerics; S = dadi.Spectrum
+    state = {}
+    fam = {}
+    def family(name):
+        def deco(f): fam[name] = f; return f
+        return deco
+    def other_int(r, x, lo, hi):
+        y = x
+        while y == x: y = int(r.integers(lo, hi))
+        return y
+    @family('multinomln')
+    def _(r, k, v, key):
+        Nl = [int(x) for x in r.integers(0, 9, 3)]
+        kind = 'list'
+        if v:
+            if k < 3: Nl[k] = other_int(r, Nl[k], 0, 9)
+            elif k == 3: Nl = Nl + [int(r.integers(1, 5))]
+            else: kind = 'array'
+        return np.array([N.multinomln(np.array(Nl) if kind == 'array' else Nl)])
+    @family('BetaBinomln')
+    def _(r, k, v, key):
+        n = int(r.integers(2, 7)); i = int(r.integers(0, n + 1)); a = float(r.uniform(0.2, 3)); b = float(r.uniform(0.2, 3))
+        if v:
+            if k == 0: i = other_int(r, i, 0, n + 1)
+            elif k == 1: n = n + int(r.integers(1, 4))
+            elif k == 2: a = a * 1.5
+            else: b = b * 1.5
+        return np.array([N.BetaBinomln(i, n, a, b)])
+    def part_args(r, k, v):
+        n = int(r.integers(2, 6)); minval = 0; maxval = int(r.choice([2, 3, 4])); x = int(r.integers(1, n * maxval))
+        if v:
+            if k == 0: x = other_int(r, x, 1, n * maxval)
+            elif k == 1: n = n + 1
+            elif k == 2: minval = 1
+            else: maxval = maxval + 1
+        return x, n, minval, maxval
+    def nested_to_array(obj):
+        out = []
+        def rec(o):
+            if isinstance(o, (list, tuple)):
+                out.append(-1.0 - len(o))
+                for e in o: rec(e)
+            else: out.append(float(o))
+        rec(obj); return np.array(out)
+    @family('cached_part')
+    def _(r, k, v, key):
+        return nested_to_array(N.cached_part(*part_args(r, k, v)))
+    @family('cached_part_precalc')
+    def _(r, k, v, key):
+        return nested_to_array(N.cached_part_precalc(*part_args(r, k, v)))
+    @family('BetaBinomConvolution')
+    def _(r, k, v, key):
+        ploidy = int(r.choice([2, 4])); n = int(r.integers(2, 5)); i = int(r.integers(0, n * ploidy + 1)); al = float(r.uniform(0.2, 3)); be = float(r.uniform(0.2, 3))
+        if v:
+            if k == 0: i = other_int(r, i, 0, n * ploidy + 1)
+            elif k == 1: n = n + 1
+            elif k == 2: al *= 1.3
+            elif k == 3: be *= 1.3
+            else: ploidy = 6 - ploidy
+        return np.array([N.BetaBinomConvolution(i, n, al, be, ploidy)])
+    @family('_cached_projection')
+    def _(r, k, v, key):
+        to = int(r.integers(2, 9)); frm = to + int(r.integers(1, 8)); hits = int(r.integers(0, frm + 1))
+        if v:
+            if k == 0: to = other_int(r, to, 1, frm)
+            elif k == 1: frm = frm + int(r.integers(1, 4))
+            else: hits = other_int(r, hits, 0, frm + 1)
+        return np.array(N._cached_projection(to, frm, hits))
+    @family('project')
+    def _(r, k, v, key):
+        frm = int(r.integers(10, 20)); to = int(r.integers(3, 8)); vals = r.uniform(0.1, 5, frm + 1)
+        if v:
+            if k == 0: to = other_int(r, to, 3, 8)
+            elif k == 1: vals = np.concatenate([vals, [1.0, 2.0]])
+            else: vals = vals[::-1].copy()
+        return S(vals).project([to])
+    def grids(r, pts, which):
+        return [N.default_grid(pts), N.default_grid(pts, crwd=2.), np.linspace(0, 1, pts), N.default_grid(pts, crwd=12.)][which]
+    @family('cached_dbeta')
+    def _(r, k, v, key):
+        nx = int(r.integers(2, 8)); pts = int(r.integers(8, 14)); xx = grids(r, pts, 0).copy()
+        j = int(r.integers(1, pts - 1))
+        if v:
+            if k == 0: nx = nx + 1
+            elif k == 1: xx[j] = 0.5 * (xx[j] + xx[j + 1])
+            elif k == 2: xx = grids(r, pts, 1 + int(r.integers(3)))
+            else: xx = grids(r, pts + 1, 0)
+        d1, d2 = dadi.Spectrum_mod.cached_dbeta(nx, xx)
+        return np.concatenate([np.ravel(d1), np.ravel(d2)])
+    @family('from_phi_2d')
+    def _(r, k, v, key):
+        pts = int(r.integers(8, 13)); xx = grids(r, pts, 0).copy(); yy = xx.copy(); ns = [int(r.integers(2, 6)), int(r.integers(2, 6))]
+        phi = r.uniform(0, 1, (pts, pts)); j = int(r.integers(1, pts - 1))
+        if v:
+            if k == 0: ns[0] += 1
+            elif k == 1: ns[1] += 1
+            elif k == 2: xx = grids(r, pts, 1 + int(r.integers(3))); yy = xx.copy()
+            elif k == 3: xx[j] = 0.5 * (xx[j] + xx[j + 1]); yy = xx.copy()
+            else: phi = phi[::-1].copy()
+        return S.from_phi(phi, ns, (xx, yy))
+    @family('from_phi_inbreeding')
+    def _(r, k, v, key):
+        pts = int(r.integers(12, 18)); xx = grids(r, pts, 0); n = int(r.choice([4, 8])); F = float(r.uniform(0.05, 0.6)); ploidy = 2
+        if v:
+            if k == 0: n = 12 - n
+            elif k == 1: F = F * 0.5
+            elif k == 2: ploidy = 4
+            else: xx = grids(r, pts, 1 + int(r.integers(3)))
+        phi = dadi.PhiManip.phi_1D(xx)
+        return S.from_phi_inbreeding(phi, (n,), (xx,), (F,), (ploidy,))
+    # ---- model-spectrum cache of the uncertainty calls
+    def make_model(multinom, variant):
+        def model(params, ns, pts):
+            nu, T = params[0], params[1]
+            theta = 1.0 if multinom else params[2]
+            xx = N.default_grid(pts)
+            phi = dadi.PhiManip.phi_1D(xx)
+            phi = dadi.Integration.one_pop(phi, xx, T, nu, gamma=(0.0 if variant == 0 else -1.5))
+            return theta * S.from_phi(phi, ns, (xx,))
+        ex = N.make_extrap_func(model)
+        return lambda p, ns, pts: ex(p, ns, [int(x) for x in pts])
+    def unc(call, multinom):
+        G = dadi.Godambe
+        def f(r, k, v, key):
+            # the model function object: one per (process, table, k), reused by the base and the varied call (unless func_ex itself is varied)
+            fn0 = state.setdefault((key, 0), make_model(multinom, 0))
+            n = int(r.choice([6, 8, 10])); b0 = int(r.integers(8, 14)); pts = [b0, b0 + int(r.integers(4, 7)), b0 + int(r.integers(8, 11))]   # distinct, gaps >= 2
+            p0 = [float(r.uniform(0.6, 2.5)), float(r.uniform(0.1, 0.8)), float(r.uniform(600, 1500))]
+            eps = 0.01; dseed = int(r.integers(1 << 30)); j = int(r.integers(3)); jp = int(r.integers(2 if multinom else 3))
+            fn = fn0
+            if v:
+                if k == 0: fn = state.setdefault((key, 1), make_model(multinom, 1))
+                elif k == 1: p0[jp] *= 1.0 + 0.05
+                elif k == 2: n = n + 2
+                elif k == 3: pts[j] += 1
+                elif k == 4: pts = [x + 10 for x in pts]
+                elif k == 5: pts = pts + [pts[-1] + 6]
+                elif k == 6: eps = 0.02
+                else: dseed += 1
+            ns = (n,)
+            rr = np.random.default_rng(dseed)
+            truth = make_model(False, 0)([p0[0] * 1.1, p0[1] * 1.2, p0[2]], ns, [30, 34, 38])
+            data = S(rr.poisson(np.ma.filled(truth, 0.0)).astype(float))
+            boots = [S(rr.poisson(np.maximum(np.ma.filled(data, 0.0), 1e-3)).astype(float)) for _ in range(4)]
+            p = list(p0[:2] if multinom else p0)
+            nested = [0]
+            if call == 'FIM_uncert': res = G.FIM_uncert(fn, pts, p, data, multinom=multinom, eps=eps, return_FIM=True)
+            elif call == 'FIM_uncert_log': res = G.FIM_uncert(fn, pts, p, data, log=True, multinom=multinom, eps=eps, return_FIM=True)
+            elif call == 'GIM_uncert': res = G.GIM_uncert(fn, pts, boots, p, data, multinom=multinom, eps=eps, return_GIM=True)
+            elif call == 'GIM_uncert_log': res = G.GIM_uncert(fn, pts, boots, p, data, log=True, multinom=multinom, eps=eps, return_GIM=True)
+            elif call == 'get_godambe': res = np.concatenate([np.ravel(x) for x in G.get_godambe(fn, pts, boots, p, data, eps)])
+            elif call == 'get_hessian': res = G.get_godambe(fn, pts, [], p, data, eps, just_hess=True)
+            elif call == 'LRT_adjust': res = G.LRT_adjust(fn, pts, boots, p, data, nested, multinom=multinom, eps=eps)
+            elif call == 'Wald_stat': res = G.Wald_stat(fn, pts, boots, p, data, nested, [x * 1.1 for x in p], multinom=multinom, eps=eps)
+            else: res = G.score_stat(fn, pts, boots, p, data, nested, multinom=multinom, eps=eps)
+            if isinstance(res, tuple): res = np.concatenate([np.ravel(np.asarray(x, dtype=float)) for x in res])
+            return np.ravel(np.asarray(res, dtype=float))
+        return f
+    for u in _UNC:
+        for mtxt, mval in (('multinom=False', False), ('multinom=True', True)):
+            if '%s:%s' % (u, mtxt) in MEMO_INPUTS:
+                fam['%s:%s' % (u, mtxt)] = unc(u, mval)
+    return fam
+
+def run_memo_token(fam, seed, tok):
+    parts = tok.split(':')          # m:<table (may contain ':')>:<k>:<v>
+    table = ':'.join(parts[1:-2]); k = int(parts[-2]); v = int(parts[-1])
+    return fam[table](_mrng(seed, table, k), k, v, (table, k))
+
 def cache_soundness(dadi):
     """every entry of every memo table must equal a fresh recomputation from its key (the invariant `Memo.SoundFor`)"""
     import numpy as np
@@ -220,6 +421,16 @@ def cache_soundness(dadi):
         for ii in (0, nx // 2, nx):
             b = betainc(ii + 1, nx - ii + 1, x)
             if not np.allclose(d1[ii], b[1:] - b[:-1], rtol=1e-10, atol=1e-300): bad.append('_dbeta_cache(nx=%d)' % nx); break
+    # model spectra memoised by the uncertainty calls: the key is (function, parameters, sample sizes, grid) and must determine the value
+    G = dadi.Godambe
+    for key, v in list(G.cache.items())[:200]:
+        try:
+            fn, params, ns, grid = key
+            want = fn(np.array(params), tuple(ns), list(grid))
+        except Exception as e:
+            bad.append('Godambe.cache: entry with key of %d components cannot be recomputed from its key (%s)' % (len(key) if isinstance(key, tuple) else 1, type(e).__name__)); break
+        if np.shape(want) != np.shape(v) or not np.allclose(np.ma.filled(want, 0.0), np.ma.filled(v, 0.0), rtol=1e-12, atol=0, equal_nan=True):
+            bad.append('Godambe.cache(params=%r, ns=%r, grid=%r)' % (tuple(float(x) for x in params), tuple(ns), tuple(grid))); break
     return bad
 
 def digest(res):
@@ -235,7 +446,7 @@ def digest(res):
     return h.hexdigest()
 
 def main():
-    path, seed, idx = sys.argv[1], int(sys.argv[2]), [int(x) for x in sys.argv[3].split(',') if x != '']
+    path, seed, idx = sys.argv[1], int(sys.argv[2]), [(x if x.startswith('m:') else int(x)) for x in sys.argv[3].split(',') if x != '']
     sys.path.insert(0, path)
     import warnings, logging
     warnings.filterwarnings('ignore'); logging.disable(logging.WARNING)
@@ -243,10 +454,28 @@ def main():
     np.seterr(all='ignore')
     import dadi
     assert os.path.realpath(dadi.__file__).startswith(os.path.realpath(path)), dadi.__file__
-    ops = build_ops(dadi)
+    ops = build_ops(dadi); fam = build_memo_ops(dadi)
+    if '--fresh-each' in sys.argv[4:]:
+        # every token in its own process forked from this one, which has imported the library and computed nothing (all memo
+        # tables must still be empty): the state of a fresh interpreter without paying the import once per token
+        tables = [dadi.Numerics._multinomln_cache, dadi.Numerics._BetaBinomln_cache, dadi.Numerics._part_cache, dadi.Numerics._part_precalc_cache,
+                  dadi.Numerics._projection_cache, dadi.Spectrum_mod._dbeta_cache, dadi.Godambe.cache]
+        assert all(len(t) == 0 for t in tables), 'memo tables not empty after import'
+        for i in idx:
+            sys.stdout.flush()
+            pid = os.fork()
+            if pid == 0:
+                try:
+                    r = run_memo_token(fam, seed, i) if isinstance(i, str) else ops[i % len(ops)](_rng(seed, i))
+                    print(i, digest(r), flush=True)
+                except Exception as e:
+                    print(i, 'EXC:%s:%s' % (type(e).__name__, str(e)[:80].replace('\n', ' ')), flush=True)
+                os._exit(0)
+            os.waitpid(pid, 0)
+        return
     for i in idx:
         try:
-            r = ops[i % len(ops)](_rng(seed, i))
+            r = run_memo_token(fam, seed, i) if isinstance(i, str) else ops[i % len(ops)](_rng(seed, i))
             print(i, digest(r), flush=True)
         except Exception as e:
             print(i, 'EXC:%s:%s' % (type(e).__name__, str(e)[:80].replace('\n', ' ')), flush=True)
